@@ -11,6 +11,7 @@ import (
 	"runtime"
 	"sort"
 	"strings"
+	"sync/atomic"
 	"unsafe"
 )
 
@@ -155,6 +156,9 @@ func Run(opts Options, main func()) *Result {
 	if S != nil {
 		panic("vsched: nested Run")
 	}
+	atomic.AddUint64(&Beat, 1)
+	atomic.StoreInt32(&InRun, 1)
+	defer atomic.StoreInt32(&InRun, 0)
 	if opts.Horizon == 0 {
 		opts.Horizon = 3600 * 1e9
 	}
@@ -357,11 +361,20 @@ func caller(skip int) string {
 // WantWhere makes points record their call site (slow; diagnostics and idle detection).
 var WantWhere = false
 
+// Beat counts scheduling points (and executions) of this process; InRun is 1 while an
+// execution is in progress. A watchdog outside the scheduler (explore.ServeWorker) uses them
+// to recognise a goroutine that burns CPU without ever reaching a scheduling point.
+var (
+	Beat  uint64
+	InRun int32
+)
+
 // Point is a scheduling point: the running goroutine announces the operation it is about
 // to perform and yields the decision to the scheduler. It returns false when the execution
 // is being torn down (the caller must then return a zero result without blocking).
 func Point(kind OpKind, obj uint64, ready func() bool) bool {
 	s := S
+	atomic.AddUint64(&Beat, 1)
 	if s == nil {
 		if ready != nil && !ready() {
 			panic("vsched: blocking operation outside Run: " + kind.String())
